@@ -12,6 +12,28 @@ import (
 
 var tObserve, tModel time.Duration
 
+// violations counts property violations found by the direct oracle in this run; the search stops at
+// the first one. Disagreements (model ≠ code) do not stop it: at most maxDisagreements are recorded,
+// the schedule goes on without the model (which is out of step from there on) and the direct
+// oracle — in particular the convergence oracle after the anti-entropy phase — still decides.
+var violations, disagreements int
+
+const maxDisagreements = 3
+
+// check compares one model answer with the implementation's observation.
+func (w *world) check(stream, model, impl string) {
+	if model == impl {
+		return
+	}
+	w.disagreed, w.nomodel = true, true
+	disagreements++
+	if disagreements <= maxDisagreements {
+		w.r.Check("C01", stream, append([]string(nil), w.ops...), model, impl)
+	} else {
+		w.r.Count("disagreements.not-recorded")
+	}
+}
+
 func init() { corr.RegisterArea("sync", Run) }
 
 // ---- one scheduler step = real code + model + oracle ------------------------------------------
@@ -29,7 +51,7 @@ func (w *world) wires() string {
 
 // resolution is what the abstract protocol leaves open and the real code decided in this step:
 // was a head update broadcast, was a request emitted, which response batches were sent.
-func (w *world) resolution() string {
+func (w *world) resolution(root int) string {
 	bh, bq := 0, 0
 	var batches []string
 	for _, m := range w.emitted {
@@ -42,7 +64,7 @@ func (w *world) resolution() string {
 			batches = append(batches, ints(m.heads)+"/"+ints(m.changes))
 		}
 	}
-	s := fmt.Sprintf(" %d %d", bh, bq)
+	s := fmt.Sprintf(" %d %d %d", bh, bq, root)
 	if len(batches) > 0 {
 		s += " " + strings.Join(batches, " ")
 	}
@@ -52,17 +74,19 @@ func (w *world) resolution() string {
 // after runs the model on the op, observes the acting replica and evaluates the direct oracle.
 func (w *world) after(op string, actor int, stream string) {
 	w.resolveEmitted()
-	line := op
-	if strings.HasPrefix(op, "dlv ") {
-		line += w.resolution()
-	}
-	w.ops = append(w.ops, line)
 	t0 := time.Now()
 	o, err := w.observe(actor)
 	tObserve += time.Since(t0)
 	if err != nil {
 		w.r.Fatal("observe: " + err.Error())
 	}
+	line := op
+	if strings.HasPrefix(op, "dlv ") {
+		// what the abstract protocol leaves open: broadcast / request / batches, and where the
+		// receiver's in-memory root went
+		line += w.resolution(o.root)
+	}
+	w.ops = append(w.ops, line)
 	// direct oracle (needs no model): closure of what is stored, of what is advertised
 	if d := w.closureDefect(o); d != "" {
 		w.violate("sync.closure", fmt.Sprintf("replica %d %s", actor, d))
@@ -83,9 +107,7 @@ func (w *world) after(op string, actor int, stream string) {
 		if ws := w.wires(); ws != "" {
 			impl += " |" + ws
 		}
-		if !w.r.Check("C01", stream, append([]string(nil), w.ops...), ans, impl) {
-			w.failed = true
-		}
+		w.check(stream, ans, impl)
 	}
 	for _, m := range w.emitted {
 		w.r.Count("emit." + string(rune(m.k)))
@@ -122,7 +144,11 @@ func (w *world) stepAdd(i int, snap bool) {
 		w.r.Count("op.add")
 	}
 	info := w.chs[id]
-	w.after(fmt.Sprintf("add %d %d %s", i, id, ints(info.parents)), i, "sync.add")
+	sn := 0
+	if snap {
+		sn = 1
+	}
+	w.after(fmt.Sprintf("add %d %d %s %d %d", i, id, ints(info.parents), sn, info.snap), i, "sync.add")
 }
 
 func (w *world) take(m *message) {
@@ -152,7 +178,7 @@ func (w *world) stepDrop(m *message) {
 	line := fmt.Sprintf("drop %d", m.mid)
 	w.ops = append(w.ops, line)
 	if !w.nomodel {
-		w.r.Check("C01", "sync.drop", append([]string(nil), w.ops...), w.r.Ask(line), "ok")
+		w.check("sync.drop", w.r.Ask(line), "ok")
 	}
 }
 
@@ -166,7 +192,7 @@ func (w *world) stepDup(m *message) {
 	line := fmt.Sprintf("dup %d %d", m.mid, c.mid)
 	w.ops = append(w.ops, line)
 	if !w.nomodel {
-		w.r.Check("C01", "sync.dup", append([]string(nil), w.ops...), w.r.Ask(line), "ok")
+		w.check("sync.dup", w.r.Ask(line), "ok")
 	}
 }
 
@@ -242,7 +268,7 @@ func (w *world) drain(mode int) bool {
 	return true
 }
 
-func (w *world) finalState() (sets, heads []string) {
+func (w *world) finalState() (sets, heads, roots []string) {
 	for i := range w.reps {
 		o, err := w.observe(i)
 		if err != nil {
@@ -253,6 +279,7 @@ func (w *world) finalState() (sets, heads []string) {
 		}
 		sets = append(sets, ints(o.stored))
 		heads = append(heads, ints(o.heads))
+		roots = append(roots, fmt.Sprint(o.root))
 		// a fresh tree built from what the replica persisted must show the same heads
 		if rh, err := w.reopenHeads(i); err != nil {
 			w.violate("sync.reopen", fmt.Sprintf("replica %d: cannot rebuild the tree from its storage: %v", i, err))
@@ -270,6 +297,15 @@ func (w *world) antiEntropy(rounds int) {
 	}
 	if !w.drain(w.r.Intn(3)) {
 		return
+	}
+	if w.phase != nil {
+		w.r.Count("phase.fixed")
+		for _, p := range w.phase {
+			if !w.exchange(p[0], p[1]) {
+				return
+			}
+		}
+		rounds = 0
 	}
 	for round := 0; round < rounds; round++ {
 		var pairs [][2]int
@@ -289,11 +325,16 @@ func (w *world) antiEntropy(rounds int) {
 			}
 		}
 	}
-	// whatever the exchanges broadcast to third parties: any fate
-	if !w.drain(w.r.Intn(3)) {
+	// whatever the exchanges broadcast to third parties: any fate (lost, when the phase is fixed:
+	// the scenario wants exactly these exchanges and nothing else)
+	mode := w.r.Intn(3)
+	if w.phase != nil {
+		mode = 0
+	}
+	if !w.drain(mode) {
 		return
 	}
-	sets, heads := w.finalState()
+	sets, heads, roots := w.finalState()
 	if w.failed {
 		return
 	}
@@ -315,12 +356,10 @@ func (w *world) antiEntropy(rounds int) {
 	if !w.nomodel {
 		var parts []string
 		for i := range sets {
-			parts = append(parts, sets[i]+" "+heads[i])
+			parts = append(parts, sets[i]+" "+heads[i]+" @"+roots[i])
 		}
 		w.ops = append(w.ops, "state")
-		if !w.r.Check("C01", "sync.final", append([]string(nil), w.ops...), w.r.Ask("state"), "ok "+strings.Join(parts, " ; ")) {
-			w.failed = true
-		}
+		w.check("sync.final", w.r.Ask("state"), "ok "+strings.Join(parts, " ; "))
 	}
 	w.r.Count("converged")
 }
@@ -438,7 +477,7 @@ func Run(r *corr.Run) {
 		if err != nil {
 			r.Fatal("cannot build replicas: " + err.Error())
 		}
-		w.nomodel = os.Getenv("VERIF_SYNC_NOMODEL") != ""
+		w.nomodel = os.Getenv("VERIF_SYNC_NOMODEL") != "" || disagreements >= maxDisagreements+20
 		w.begin()
 		body(w)
 		if w.abort {
@@ -450,8 +489,16 @@ func Run(r *corr.Run) {
 		return !w.failed
 	}
 
-	// 1. guard-directed scenarios (fixed shapes, every seed)
-	for _, sc := range scenarios() {
+	// 1. guard-directed scenarios (fixed shapes, every seed), then the stale-fork family (quick: a
+	// seed-dependent quarter of it)
+	all := scenarios()
+	for _, sc := range staleForkFamily(r) {
+		if r.Quick() && r.Intn(4) != 0 {
+			continue
+		}
+		all = append(all, sc)
+	}
+	for _, sc := range all {
 		sc := sc
 		t0 := time.Now()
 		run(sc.n, sc.batch, sc.body)
@@ -459,7 +506,7 @@ func Run(r *corr.Run) {
 			fmt.Fprintf(os.Stderr, "scenario %q: %v steps=%d observe=%v model=%v\n", sc.name, time.Since(t0), r.Res.ModelSteps, tObserve, tModel)
 		}
 		r.Count("scenario")
-		if r.Issues() > 0 {
+		if violations > 0 {
 			return
 		}
 	}
@@ -477,7 +524,7 @@ func Run(r *corr.Run) {
 	if !r.Quick() {
 		randomUntil = time.Now().Add(time.Until(r.Deadline) / 2)
 	}
-	for k := 0; k < maxSched && time.Now().Before(randomUntil) && r.Issues() == 0; k++ {
+	for k := 0; k < maxSched && time.Now().Before(randomUntil) && violations == 0; k++ {
 		n := 2 + r.Intn(3)
 		steps := 8 + r.Intn(r.Pick(55, 120))
 		batch := 0
@@ -491,7 +538,7 @@ func Run(r *corr.Run) {
 	}
 
 	// 3. exhaustive short schedules, two replicas (thorough)
-	if !r.Quick() && r.Issues() == 0 {
+	if !r.Quick() && violations == 0 {
 		exhaustive(r, run)
 	}
 }
